@@ -158,13 +158,13 @@ fn hostile_payloads(rng: &mut Rng, thorough: bool) -> Vec<String> {
         v.push(format!("{{\"exp\":\"{}\",\"nbf\":\"{}\"}}", t.replace('\u{0}', "\\u0000"), t.replace('\u{0}', "\\u0000")));
     }
     for k in ["exp", "nbf"] {
-        for val in ["-1", "0", "1e99", "-1e99", "9223372036854775807", "-9223372036854775808", "18446744073709551615", "253402300800", "[[[[[[[[[[]]]]]]]]]]", "{\"exp\":{\"exp\":{}}}", "\"\"", "\" \"", "\"\\n\""] {
+        for val in ["-1", "0", "1e99", "-1e99", "9223372036854775807", "-9223372036854775808", "18446744073709551615", "253402300800", "[[[[[[[[[[]]]]]]]]]]", "{\"exp\":{\"exp\":{}}}", "\"\"", "\" \"", "\"\\n\"", "[]", "{}", "[\"\"]", "[\"2999-01-01T00:00:00Z\"]", "true", "null"] {
             v.push(format!("{{\"{}\":{}}}", k, val));
         }
     }
     // values of every JSON kind under the keys the configured parsers (cfg=1..4) look at
     for k in ["a", "k", "aud", "sub", "absent"] {
-        for val in ["18446744073709551615", "9223372036854775808", "-9223372036854775809", "1.5", "-0.0", "1e308", "\"1\"", "[1]", "{\"a\":1}", "null", "true", "\"customers\"", "1"] {
+        for val in ["18446744073709551615", "9223372036854775808", "-9223372036854775809", "1.5", "-0.0", "1e308", "\"1\"", "[1]", "{\"a\":1}", "null", "true", "\"customers\"", "1", "[]", "{}", "\"\"", "[[]]", "[null]", "[\"\"]", "[\"customers\"]", "[1,1]", "{\"\":1}", "\"\\u0000\"", "[{}]", "false", "0"] {
             v.push(format!("{{\"{}\":{}}}", k, val));
         }
     }
@@ -369,6 +369,21 @@ pub fn build_cases(tier: &str, seed: u64, pools: &Pools) -> Vec<Case> {
         }
         for g in generic {
             push_all_layers(&mut cases, p, &key, g, None, None, "generic-hostile");
+        }
+        // (5b) every string of one or two characters from an alphabet of quotes, brackets, separators, white space and
+        //      controls (anything that trims, unquotes or unwraps its input before parsing meets its shortest inputs), and
+        //      half-wrapped authentic tokens
+        let specials: Vec<char> = "\"'`<>()[]{}.,:;=&%+-_/\\ \t\n\r\0Av".chars().chain(['\u{e9}', '\u{feff}']).collect();
+        for &a in &specials {
+            push_all_layers(&mut cases, p, &key, a.to_string(), None, None, "one-special-character");
+            for &b in &specials {
+                push_all_layers(&mut cases, p, &key, format!("{}{}", a, b), None, None, "two-special-characters");
+            }
+        }
+        if let Some(t) = &auth {
+            for (pre, post) in [("\"", ""), ("", "\""), ("'", ""), ("", "'"), ("\"", "'"), ("<", ""), ("", ">"), ("Bearer", ""), ("Bearer ", ""), (" ", "\""), ("\" ", " \""), ("(", ")"), ("", "%")] {
+                push_all_layers(&mut cases, p, &key, format!("{}{}{}", pre, t, post), None, None, "authentic-half-wrapped");
+            }
         }
         // (6) other protocols' authentic tokens and relabelled ones presented here (overlaps C07; here only for crashes)
         for &q in &ALL {
